@@ -10,7 +10,7 @@ Q3  status-byte latch shape (shared with C13/O3): mount-time bits are only OR-ed
 Q4  the two status-byte offsets are the offsets of BPB.reserved_1 in the FAT12/16 and FAT32 layouts
 Q5  read_status_flags reports the mount-time bits; mount drops the cached free count on a dirty volume
 """
-from analyses import (Deps, Must, edge_dominates, nonzero_targets, switch_source, zero_targets, const_operand_value,
+from analyses import (Deps, Must, label_results, edge_dominates, nonzero_targets, switch_source, zero_targets, const_operand_value,
                       dev_leaf_kind, error_blocks)
 from core import vkey
 from model import op_const, op_place, place_key
@@ -233,6 +233,16 @@ def run(ctx, rep):
     m_clear = Must(facts, lambda f, b, t, names: t.get('callee') == W.name and const_operand_value(t['args'][-1]) == 0)
     ok_clear = m_clear.passes(U, set())[0]
     ordered = all(b not in U.reach_from([0], cut_edges=cut_fs) for b in clear_calls) and bool(clear_calls)
+    # ... and by its *Ok* edge: a failed flush must not be followed by restoring the status byte
+    lab_u = label_results(U)
+    for fb, ft in U.calls():
+        nm = set()
+        for iid_ in facts.insts_of.get(U.name, []):
+            nm |= {facts.instances[c]['fn'] for c, k_ in facts.edge_at.get((iid_, fb), ())}
+        if nm & fsinfo_fns or (ft.get('callee') in fsinfo_fns):
+            info = lab_u.get(fb)
+            if info is None or info['status'] != 'labelled' or not all(edge_dominates(U, info['ok'], cb) for cb in clear_calls):
+                ordered = False
     rep.oblige('Q2', UNMOUNT_INTERNAL, ok=ok_fs and ok_clear and ordered, nontrivial=True,
                sample={'fn': UNMOUNT_INTERNAL, 'fsinfo_flush_must': ok_fs, 'clear_flag_must': ok_clear,
                        'flush_before_clear': ordered})
@@ -429,4 +439,28 @@ def run(ctx, rep):
                               'ClusterIterator::truncate has an Ok path that does not write the FAT' if not ct_ok else
                               'truncate_cluster_chain has an Ok path that does not write the FAT' if not tc_ok else
                               'a path after set_size crosses neither set_dirty_flag(true) nor a chain operation'))
+    # ---------------- Q6b a table update is a device write on every Ok path (File::truncate / remove rely on the FS adapter
+    # seeing that write to raise the dirty bit; an "unchanged, skip the write" shortcut in one width breaks it there only)
+    RAW = ('write_u8', 'write_u16_le', 'write_u32_le')
+    m_raw = Must(facts, lambda f, b, t, names: (t.get('callee') or '').rsplit('::', 1)[-1] in RAW or
+                 (t.get('callee') or '').endswith(('io::Write::write_all', 'io::Write::write')))
+    setraw_ok = {}
+    for w_ in ('u8', 'u16', 'u32'):
+        SR = facts.fns.get('<fatfs::table::Fat<%s> as fatfs::table::FatTrait>::set_raw' % w_)
+        setraw_ok[w_] = SR is not None and m_raw.passes(SR, set())[0]
+    for w_ in ('u8', 'u16', 'u32'):
+        ST_ = facts.fns.get('<fatfs::table::Fat<%s> as fatfs::table::FatTrait>::set' % w_)
+        if ST_ is None:
+            rep.machinery('ANCHOR-MISSING Fat<%s>::set' % w_)
+            continue
+        m_set = Must(facts, lambda f, b, t, names, w_=w_: (t.get('callee') or '').rsplit('::', 1)[-1] in RAW or
+                     ((t.get('callee') or '').endswith('::set_raw') and setraw_ok[w_]))
+        ok = m_set.passes(ST_, set())[0]
+        rep.oblige('Q6b', ST_.name, ok=ok, nontrivial=True,
+                   sample={'fn': ST_.name, 'rule': 'every Ok exit crossed a device write', 'set_raw_always_writes': setraw_ok[w_]})
+        if not ok:
+            rep.violation('Q6', vkey('Q6', ST_.name, 'set-always-writes', ''), ST_.loc(ST_.span),
+                          '%s can return Ok without having written the table: callers that change a file\'s size or a '
+                          'directory rely on the table write passing through the FS adapter to raise the dirty bit (and on the '
+                          'write reaching every FAT copy)' % ST_.name)
     rep.counts['Q1.sites'] = n_sites
